@@ -19,6 +19,7 @@ ROOT = os.path.dirname(os.path.dirname(os.path.abspath(__file__)))
 COQ = os.path.join(ROOT, "coq")
 BUILD = os.path.join(ROOT, "build")
 MODEL_EXE = os.path.join(BUILD, "model.exe")
+MODELR_EXE = os.path.join(BUILD, "modelr.exe")
 REPO = os.environ.get("VERIF_REPO", "/repo")   # (override only used by tools/seed_matrix.sh to test seeded copies in a scratch worktree)
 
 # --------------------------------------------------------------------------- rationals
@@ -72,6 +73,26 @@ def encode_case(func, sc=(), qs=(), idx=()):
         " ".join(q2s(x) for x in qs),
         ";".join(" ".join(str(int(i)) for i in g) for g in idx),
     )
+
+
+def run_model_r(lines):
+    """float-realised extraction of the real-number model (Extract/ExtractR.v): lines in, list of complex (or None) out"""
+    if not lines:
+        return []
+    if not os.path.exists(MODELR_EXE):
+        raise RuntimeError("modelr.exe missing (Extract/ExtractR.v did not build)")
+    out = subprocess.run([MODELR_EXE], input="\n".join(lines) + "\n", stdout=subprocess.PIPE, text=True).stdout.strip("\n").split("\n")
+    if len(out) != len(lines):
+        raise RuntimeError("modelr.exe returned %d lines for %d cases" % (len(out), len(lines)))
+    res = []
+    for o in out:
+        w = o.split()
+        res.append(complex(float.fromhex(w[1]), float.fromhex(w[2])) if w and w[0] == "OK" else None)
+    return res
+
+
+def hx(v):
+    return " ".join(float(x).hex() for x in v)
 
 
 def run_model(cases, shards=None):
